@@ -1,0 +1,13 @@
+//go:build verif
+// +build verif
+
+package api
+
+// Export for the /verif harness (build tag "verif" only). Add-only.
+
+import "github.com/evanw/esbuild/internal/config"
+
+// VerifValidatePathTemplate runs validatePathTemplate (the parser of the entry/chunk/asset name templates).
+func VerifValidatePathTemplate(template string) []config.PathTemplate {
+	return validatePathTemplate(template)
+}
